@@ -36,6 +36,13 @@
 (* sent and refused: Add with n = 0, no index, InvalidArgument); the silent *)
 (* step SkipEmpty also accepts a migrator that drops the empty batch and    *)
 (* simply asks again.  Neither lets the range end.                          *)
+(*                                                                         *)
+(* The configured range (Reset carries start, end and ahead: how many       *)
+(* entries the source serves beyond the STH it announces).  A fourth        *)
+(* defect step, OverrunRange, explains get-entries requests that reach      *)
+(* beyond the STH of the pass towards an explicit end_index (or to the end  *)
+(* of a batch): the run goes on, and if the source serves such an entry and *)
+(* it is submitted, invariant Bounded reports it by name.                   *)
 (***************************************************************************)
 EXTENDS Migrillian, Json, IOUtils
 
@@ -49,12 +56,12 @@ E == Trace[l]
 Step == l' = l + 1
 SeqToSet(s) == {s[i] : i \in DOMAIN s}
 
-CfgOf(j) == [src0 |-> j.src0, growth |-> j.growth, bad |-> SeqToSet(j.bad), destLen |-> j.destLen, destInt |-> j.destInt,
+CfgOf(j) == [src0 |-> j.src0, growth |-> j.growth, ahead |-> j.ahead, end |-> j.end, bad |-> SeqToSet(j.bad), destLen |-> j.destLen, destInt |-> j.destInt,
              batch |-> j.batch, fetchers |-> j.fetchers, submitters |-> j.submitters, cont |-> j.cont, stop |-> FALSE,
              start |-> j.start, forked |-> j.forked, forkAt |-> j.forkAt,
              mode |-> IF j.mode = "run" THEN "run" ELSE "master", faults |-> 1000, restarts |-> 1000]
 
-Blank == [src0 |-> 0, growth |-> 0, bad |-> {}, destLen |-> 0, destInt |-> 0, batch |-> 1, fetchers |-> 1, submitters |-> 1,
+Blank == [src0 |-> 0, growth |-> 0, ahead |-> 0, end |-> 0, bad |-> {}, destLen |-> 0, destInt |-> 0, batch |-> 1, fetchers |-> 1, submitters |-> 1,
           cont |-> FALSE, stop |-> FALSE, start |-> 0, forked |-> FALSE, forkAt |-> 0, mode |-> "run", faults |-> 0, restarts |-> 0]
 
 TraceInit == InitWith(Blank) /\ l = 1 /\ TLCSet(1, 1)
@@ -180,10 +187,22 @@ AbortOnQuota ==
 \* reported when an event proves that the pass was indeed reported as successful (Complete at Return nil, NoGap at the
 \* next GetRoot).
 AbandonRanges ==
-  /\ pc = "run" /\ why = "" /\ gen = sth /\ out # {} /\ hold = {} /\ \A b \in bag : b.n = 0
+  /\ pc = "run" /\ why = "" /\ gen >= Hi /\ out # {} /\ hold = {} /\ \A b \in bag : b.n = 0
   /\ (root = 0 \/ proved)                    \* not on top of another suspicion (SkipGate, an unverified proof)
   /\ out' = {} /\ bag' = {}
   /\ UNCHANGED <<cfg, dest, hold, envv, restarts, faults, pass, calls, hist, ctl, verified, flags, l>>
+
+\* defect: the range generator hands out a range that reaches beyond the end of the pass's range - up to an explicit
+\* end_index beyond the STH, or to the end of a full batch - as if the STH did not bound the job
+OverrunRange ==
+  /\ pc = "run" /\ sth >= 0 /\ Cardinality(out) < cfg.fetchers
+  /\ LET lim == IF ~cfg.cont /\ cfg.end > sth THEN cfg.end ELSE MaxIdx
+         e == Min(Min(gen + cfg.batch, lim), MaxIdx) - 1 IN
+       /\ e >= Hi /\ e >= gen
+       /\ out' = out \cup {[s |-> gen, e |-> e]}
+       /\ gen' = e + 1
+  /\ UNCHANGED <<cfg, dest, bag, hold, envv, faults, restarts, verified, flags, pass, calls, hist,
+                 pc, why, result, pos, root, sth, proved, l>>
 
 \* permitted: an empty batch is dropped instead of being submitted (the range is still held and asked again)
 SkipEmpty ==
@@ -202,7 +221,7 @@ Silent == /\ UNCHANGED l
              \/ (\E h \in hold : Wake(h))
 
 TraceNext == TReset \/ TGetRoot \/ TSTH \/ TCons \/ TStray \/ TFetch \/ TAdd \/ TIntegrate \/ TGrow \/ TMaster \/ TCancel
-             \/ TRestart \/ TReturn \/ Silent \/ SkipGate \/ AbortOnQuota \/ AbandonRanges \/ SkipEmpty
+             \/ TRestart \/ TReturn \/ Silent \/ SkipGate \/ AbortOnQuota \/ AbandonRanges \/ SkipEmpty \/ OverrunRange
 
 TraceView == <<cfg, srcSize, dest, destSize, pc, why, result, pos, root, sth, proved, gen, out, bag, hold,
                master, alive, verified, flags, l>>
